@@ -162,9 +162,12 @@ Program genC09(Rand& R, int tier)
     if (R.chance(65)) {
         // one-step images
         const SetChoice sk = SETKINDS[R.below(3)];
-        char sred = (sk.range == 'I' && sk.label == 'M') ? 'F' : "FQ"[R.below(2)];
+        const bool mtint = (sk.range == 'I' && sk.label == 'M');
+        const bool allowQ = true;        // (quasi-reduced MT-int distance sets included: their transparent 0 is a proper distance)
+        (void) mtint;
+        char sred = allowQ ? "FQ"[R.below(2)] : 'F';
         int fset = G.addForest(G.forestSpec(d, false, sk.range, sk.label, sred, R.chance(40)));
-        int fres = R.chance(70) ? fset : G.addForest(G.forestSpec(d, false, sk.range, sk.label, (sk.range == 'I' && sk.label == 'M') ? 'F' : "FQ"[R.below(2)], false));
+        int fres = R.chance(70) ? fset : G.addForest(G.forestSpec(d, false, sk.range, sk.label, allowQ ? "FQ"[R.below(2)] : 'F', false));
         int frel = G.addForest(G.forestSpec(d, true, 'B', 'M', "FQI"[R.below(3)], R.chance(40)));
         int rounds = R.range(1, 4);
         for (int r = 0; r < rounds; r++) {
